@@ -48,6 +48,8 @@ pub enum Edit {
     /// generated project: the definition at `line` and all its references are renamed to a name
     /// that differs only in case / blanks (`how`), and an unused copy of it keeps the old name
     NearNamePair { line: usize, how: String },
+    /// generated project: the block whose header is at `line` appears twice (repeated write)
+    BlockDuplicated { line: usize },
     /// C02: definition header renamed (references untouched)
     DefRenamed { line: usize },
     /// C02: definition block removed
@@ -76,6 +78,7 @@ impl Edit {
             Edit::CloneDamaged { .. } => "proj.unused_copy_damaged",
             Edit::RenameEverywhere { .. } => "proj.renamed_consistently",
             Edit::NearNamePair { .. } => "proj.near_identical_names",
+            Edit::BlockDuplicated { .. } => "disk.block_duplicated",
             Edit::DefRenamed { .. } => "disk.def_renamed",
             Edit::DefRemoved { .. } => "disk.def_removed",
             Edit::RefRenamed { .. } => "disk.ref_renamed",
@@ -100,6 +103,7 @@ impl Edit {
             | Edit::CloneDamaged { line, .. }
             | Edit::RenameEverywhere { line, .. }
             | Edit::NearNamePair { line, .. }
+            | Edit::BlockDuplicated { line }
             | Edit::DefRenamed { line }
             | Edit::DefRemoved { line }
             | Edit::RefRenamed { line, .. } => Some(*line),
@@ -576,6 +580,21 @@ pub fn apply(text: &str, e: &Edit) -> Option<String> {
             };
             let mut v = lines.clone();
             v[*line] = &newl;
+            Some(join(&v))
+        }
+        Edit::BlockDuplicated { line } => {
+            get(*line)?;
+            header_of(lines[*line])?;
+            let mut end = *line + 1;
+            while end < n && lines[end].trim() != ".." {
+                end += 1;
+            }
+            if end >= n {
+                return None;
+            }
+            let mut v: Vec<&str> = lines[..=end].to_vec();
+            v.extend_from_slice(&lines[*line..=end]);
+            v.extend_from_slice(&lines[end + 1..]);
             Some(join(&v))
         }
         Edit::NearNamePair { line, how } => {
